@@ -58,7 +58,7 @@ type c16Case struct {
 }
 
 const c16Rule = "case = protocol (ipfix | sflow), max-udp-size 64..65507 (biased to 1500; the other protocols' size setting drawn independently), 1..4 workers, IPv4 exporter address in 4-octet or 16-octet form, exporter source ports fixed or (half of the cases) drawn per datagram from 1..65535 incl. the collector's own listening ports, the ports its mirror functions send from and the port of the target, mirror target 127.x.y.z:port, " +
-	"1..8 datagrams with lengths biased to {0, 1, size-29, size-28, size-27, size-1, size} (valid protocol messages and arbitrary octets); the real worker queues them for mirroring and the real mirror function emits them — a single one, or (half of the cases) the real dispatcher with 2..8 mirror workers sharing its queue; " +
+	"1..8 datagrams with lengths biased to {0, 1, size-29, size-28, size-27, size-1, size} (valid protocol messages and arbitrary octets); the real worker queues them for mirroring and the real mirror function emits them — a single one, or (half of the cases) the real dispatcher with 1..8 mirror workers sharing its queue; " +
 	"oracle on the IP packets captured on lo (filtered by the run's own target address and port) = exactly one packet per datagram, version/IHL 0x45, protocol 17, source = exporter, destination = target, " +
 	"IP total length = 28+n = captured length, UDP length = 8+n, destination port = configured, UDP checksum absent (0) or verifying (payloads incl. ones whose checksum needs two end-around carries), payload byte-identical; the driver survives; published payloads with mirroring on == with mirroring off, also when templates were learned under one mirror setting and the data arrives under the other (cache kept), and when a flood of > 1000 datagrams overflows the mirror queue (then only: nothing corrupted, nothing twice); " +
 	"non-trivial = a payload within 28 octets of the maximum, or a 4-octet source address, or an empty payload; distinct by hash"
@@ -143,7 +143,7 @@ func genC16(t *rapid.T, envs map[string]*wire.GenEnv) c16Case {
 	c := c16Case{Proto: rapid.SampledFrom([]string{"ipfix", "sflow"}).Draw(t, "proto")}
 	c.UDPSize = rapid.OneOf(rapid.Just(1500), rapid.SampledFrom([]int{64, 100, 512, 1500, 9000, 65507}), rapid.IntRange(64, 65507)).Draw(t, "udpsize")
 	c.Workers = rapid.IntRange(1, 4).Draw(t, "workers")
-	c.MirrorWorkers = rapid.SampledFrom([]int{0, 0, 0, 2, 5, 5, 8}).Draw(t, "mirrorworkers")
+	c.MirrorWorkers = rapid.SampledFrom([]int{0, 0, 0, 1, 1, 2, 5, 5, 8}).Draw(t, "mirrorworkers")
 	if rapid.Bool().Draw(t, "othersize") {
 		c.OtherUDPSize = rapid.SampledFrom([]int{64, 512, 1400, 1500, 9000}).Draw(t, "otherudpsize")
 	}
